@@ -307,6 +307,10 @@ def banner(rng):
     r = rng.random()
     if r < 0.5:
         comment = None
+    elif r < 0.65:
+        # blanks are part of the comment: runs of spaces, a trailing or leading blank, a tab (RFC 4253 4.2: the
+        # comment is everything behind the first space)
+        comment = rng.choice(['FIPS  build 2024-01-01', 'two  spaces', 'trailing ', ' leading', 'tab\tseparated', 'a   b  c', '  '])
     else:
         comment = ' '.join(''.join(rng.choice(NAME_CHARS + ',') for _ in range(rng.randrange(1, 12)))
                            for _ in range(rng.randrange(1, 4)))
